@@ -4,7 +4,10 @@ use crate::evidence::Outcome;
 pub mod histcommon;
 pub mod c01;
 pub mod c02;
+pub mod c03;
+pub mod c06;
 pub mod c15;
+pub mod c17;
 pub mod c18;
 pub mod c20;
 
@@ -18,7 +21,10 @@ pub fn run(id: &str, tier: Tier) -> Option<Outcome> {
     Some(match id {
         "C01" => c01::run(tier),
         "C02" => c02::run(tier),
+        "C03" => c03::run(tier),
+        "C06" => c06::run(tier),
         "C15" => c15::run(tier),
+        "C17" => c17::run(tier),
         "C18" => c18::run(tier),
         "C20" => c20::run(tier),
         _ => return None,
@@ -29,7 +35,10 @@ pub fn replay(id: &str, replay: &serde_json::Value) -> Option<Vec<crate::mc::Vio
     match id {
         "C01" => Some(histcommon::replay_hist(&c01::model(Tier::Quick, replay["world"].as_str().unwrap_or("")), replay)),
         "C02" => Some(histcommon::replay_hist(&c02::model(Tier::Quick, replay["world"].as_str().unwrap_or("")), replay)),
+        "C06" if replay["model"] == "C06" => Some(histcommon::replay_hist(&c06::model(Tier::Quick, replay["world"].as_str().unwrap_or("")), replay)),
+        "C03" => Some(histcommon::replay_hist(&c03::model_for(replay), replay)),
         "C15" => Some(c15::replay(replay)),
+        "C17" => Some(histcommon::replay_hist(&c17::model(Tier::Thorough, replay["world"].as_str().unwrap_or("")), replay)),
         _ => None,
     }
 }
